@@ -6,6 +6,7 @@ import (
 	"testing"
 	"time"
 
+	"go.flow.arcalot.io/engine/zverif/ir"
 	"go.flow.arcalot.io/engine/zverif/simrt"
 	"go.flow.arcalot.io/engine/zverif/world"
 )
@@ -54,4 +55,39 @@ func TestHuntForeachCloseVsProvide(t *testing.T) {
 		}
 	}
 	fmt.Println(hits)
+}
+
+// TestHuntDisabledStepStall is a directed search (VERIF_HUNT=2): a disabled step whose disabled.output the
+// result needs, next to a slower step, with a delay right after each state write in turn.
+func TestHuntDisabledStepStall(t *testing.T) {
+	if os.Getenv("VERIF_HUNT") != "2" {
+		t.Skip()
+	}
+	LoadSites(os.Getenv("VERIF_SITES"))
+	loadKnown(os.Getenv("VERIF_KNOWN"))
+	hits := map[string]int{}
+	for seed := int64(1); seed <= 400; seed++ {
+		p := &ir.Program{Subs: map[string]*ir.Program{}}
+		p.Steps = []*ir.Step{
+			{ID: "primary", Kind: "plugin", In: []ir.Field{ir.F("a", ir.Lit(int64(1)))}, Enabled: ir.Ref("input", "flag")},
+			{ID: "other", Kind: "plugin", In: []ir.Field{ir.F("a", ir.Lit(int64(2))), ir.F("dur", ir.Lit(int64(40)))}},
+		}
+		p.Outputs = []ir.Output{{ID: "success", E: ir.Obj(
+			ir.F("p", ir.OneOf("kind", ir.F("ran", ir.StepRef("primary", "outputs", "success")), ir.F("off", ir.StepRef("primary", "disabled", "output")))),
+			ir.F("o", ir.StepRef("other", "outputs", "success", "a")))}}
+		doc := ir.Doc{"n": int64(1), "tag": "t", "flag": false}
+		c := &Case{Property: "C09", Profile: "hunt", Class: "S1", Program: p, Doc: doc}
+		c.Policy = simrt.PolicySpec{Kind: "holdat", Seed: seed, L: 1500, HoldState: int(1 + seed%40), WindowUS: 200000, Shuffle: seed%2 == 0}
+		r := RunCase(t, c, false)
+		v, err := NewView(c, r)
+		if err != nil {
+			t.Fatal(err)
+		}
+		for _, x := range OracleResult("C09", v) {
+			hits[fmt.Sprintf("%s %s %v known=%s", x.Rule, x.Shape, x.Parts, knownID(x))]++
+		}
+	}
+	for k, n := range hits {
+		fmt.Println(n, k)
+	}
 }
